@@ -1,8 +1,10 @@
 package harness
 
 import (
+	"context"
 	"fmt"
 	"strings"
+	"time"
 
 	"github.com/fluffle/goirc/client"
 
@@ -10,61 +12,111 @@ import (
 	"verif/vx"
 )
 
-// C07: disconnect always completes, leaks nothing, client can reconnect.
+// C07: disconnect always completes, leaks nothing, and the client can reconnect.
 
 type c07Params struct {
-	Backlog int    // inbound lines pending when the disconnect starts
-	Cause   string // close | eof
-	Emit    int    // lines a foreground handler sends per event
+	Backlog  int    // inbound lines still unprocessed when the disconnect starts
+	Segs     string // "one" | "many": the backlog arrives in one or many segments
+	Mode     string // handler state when the disconnect starts: idle | gated (running) | sending (emitting Emit lines)
+	Emit     int    // lines the first handler sends
+	Stall    bool   // the server does not read: socket writes block once the pipe is full
+	Cause    string // close | eof | readerr | writeerr | cancel
+	FloodCtl bool
+	UserSend int // lines a user task is sending concurrently
+	ChanCap  int // 0 = real capacity (32); 2 = capacity-scaled abstraction
 }
 
-func c07Scenario(p c07Params, chanCap int) *explore.Scenario {
-	name := fmt.Sprintf("teardown/backlog=%d/cause=%s/emit=%d/cap=%d", p.Backlog, p.Cause, p.Emit, chanCap)
+func (p c07Params) name() string {
+	return fmt.Sprintf("teardown/in=%d/%s/mode=%s/emit=%d/stall=%v/cause=%s/fc=%v/user=%d/cap=%d", p.Backlog, p.Segs, p.Mode, p.Emit, p.Stall, p.Cause, p.FloodCtl, p.UserSend, p.ChanCap)
+}
+
+func (p c07Params) params() map[string]interface{} {
+	return map[string]interface{}{"inbound_backlog": p.Backlog, "segs": p.Segs, "mode": p.Mode, "emit": p.Emit, "stall": p.Stall,
+		"cause": p.Cause, "floodctl": p.FloodCtl, "user_send": p.UserSend, "chancap": p.ChanCap}
+}
+
+func c07Scenario(p c07Params) *explore.Scenario {
 	sc := &explore.Scenario{
 		Family: "teardown",
-		Name:   name,
-		Params: map[string]interface{}{"inbound_backlog": p.Backlog, "cause": p.Cause, "emit": p.Emit, "chancap": chanCap},
-		Opt:    vx.Options{ChanCap: chanCap, MaxSteps: 20000},
+		Name:   p.name(),
+		Params: p.params(),
+		Opt:    vx.Options{ChanCap: p.ChanCap, MaxSteps: 60000, Horizon: 2 * time.Hour},
 	}
 	sc.Main = func(env *vx.Env) {
-		c := NewClient("me", nil)
+		c := NewClient("me", func(cfg *client.Config) { cfg.Flood = !p.FloodCtl })
 		first := vx.NewEvent("first-handled")
 		gate := vx.NewEvent("gate")
 		c.HandleFunc("PRIVMSG", func(conn *client.Conn, line *client.Line) {
-			vx.Observe("ev", "privmsg "+line.Text())
-			for i := 0; i < p.Emit; i++ {
-				conn.Raw(fmt.Sprintf("PRIVMSG #c :echo %s %d", line.Text(), i))
+			if line.Text() != "m0" {
+				return
 			}
-			if line.Text() == "m0" {
-				// hold the event loop in the first line until the harness has
-				// built the backlog it wants
-				first.Set()
+			vx.Observe("ev", "handler-enter")
+			first.Set()
+			switch p.Mode {
+			case "gated":
+				// hold the event loop in the first line until the harness has built the backlog
 				gate.Wait()
+			case "sending":
+				for i := 0; i < p.Emit; i++ {
+					conn.Raw(fmt.Sprintf("PRIVMSG #c :echo %d", i))
+				}
 			}
+			vx.Observe("ev", "handler-exit")
 		})
 		c.HandleFunc(client.DISCONNECTED, func(conn *client.Conn, line *client.Line) {
-			vx.Observe("ev", fmt.Sprintf("DISCONNECTED connected=%v", conn.Connected()))
+			vx.Observe("ev", "DISCONNECTED")
 		})
-		env.ConnSetup = func(vc *vx.Conn) {
-			vc.Preload(Privmsgs(0, p.Backlog+1))
-			if p.Cause == "eof" {
-				vc.PreloadEOF()
-			}
-		}
-		if err := c.Connect(); err != nil {
+		var vc *vx.Conn
+		env.ConnSetup = func(x *vx.Conn) { vc = x }
+		ctx, cancel := context.WithCancel(context.Background())
+		if err := c.ConnectContext(ctx); err != nil {
 			vx.Observe("ev", "connect-error "+err.Error())
 			return
 		}
-		vx.Observe("ev", "connected")
+		vx.Quiesce() // registration is on the wire
+		if p.Stall {
+			vc.StallWrites(1) // from now on the server does not read: the next write blocks
+		}
+		if p.Segs == "many" {
+			for i := 0; i <= p.Backlog; i++ {
+				vc.Send(Privmsgs(i, 1))
+			}
+		} else {
+			vc.Send(Privmsgs(0, p.Backlog+1))
+		}
+		if p.UserSend > 0 {
+			env.GoBlocked("user-sender", func() {
+				// sends issued after DISCONNECTED are outside the claim and may block for ever
+				for i := 0; i < p.UserSend; i++ {
+					c.Raw(fmt.Sprintf("PRIVMSG #c :user %d", i))
+				}
+			})
+		}
 		first.Wait()
-		vx.Quiesce() // the receive goroutine has queued everything it can
-		gate.Set()
-		if p.Cause == "close" {
-			vx.Observe("ev", "close-call")
+		vx.Quiesce() // the receive goroutine has queued everything it can; a sending handler is blocked or done
+		if p.Mode == "gated" {
+			gate.Set()
+		}
+		vx.Observe("ev", "cause-begin "+p.Cause)
+		switch p.Cause {
+		case "close":
 			c.Close()
 			vx.Observe("ev", "close-ret")
+		case "eof":
+			vc.EOF()
+		case "readerr":
+			vc.FailRead(vx.ErrInjected)
+		case "writeerr":
+			vc.FailNextWrite()
+			vc.SendLines("PING :provoke-a-write")
+		case "cancel":
+			cancel()
 		}
 		vx.Quiesce()
+		if p.FloodCtl {
+			vx.Sleep(10 * time.Minute) // let every rate-limit hold expire
+			vx.Quiesce()
+		}
 		vx.Observe("ev", fmt.Sprintf("end connected=%v", c.Connected()))
 	}
 	sc.Check = func(o *vx.Outcome) []explore.Finding {
@@ -72,18 +124,194 @@ func c07Scenario(p c07Params, chanCap int) *explore.Scenario {
 		ev := o.Log("ev")
 		switch o.Kind {
 		case "crash":
-			return []explore.Finding{{"crash", o.Crash.Task + ": " + o.Crash.Value}}
+			return []explore.Finding{{Oracle: "crash", Msg: o.Crash.Task + ": " + o.Crash.Value + " @ " + o.Crash.Top}}
 		case "deadlock":
-			return []explore.Finding{{"deadlock", "disconnect never completes: " + o.BlockedSig()}}
+			return []explore.Finding{{Oracle: "deadlock", Msg: "disconnect never completes (cause " + p.Cause + "); blocked: " + o.BlockedSig()}}
 		}
 		if n := count(ev, "DISCONNECTED"); n != 1 {
-			fs = append(fs, explore.Finding{"disconnected-count", fmt.Sprintf("%d DISCONNECTED events for one connection (blocked: %s)", n, o.BlockedSig())})
+			fs = append(fs, explore.Finding{Oracle: "disconnected-count", Msg: fmt.Sprintf("%d DISCONNECTED events for one connection after cause %s; blocked: %s", n, p.Cause, o.BlockedSig())})
 		}
 		if l := ClientLeaks(o); len(l) > 0 {
-			fs = append(fs, explore.Finding{"leak", "client goroutines alive after disconnect: " + strings.Join(l, " | ")})
+			fs = append(fs, explore.Finding{Oracle: "leak", Msg: "client goroutines alive after the disconnect: " + strings.Join(l, " | ")})
 		}
-		if len(ev) > 0 && !strings.HasSuffix(ev[len(ev)-1], "connected=false") {
-			fs = append(fs, explore.Finding{"still-connected", "Connected() is true after the disconnect"})
+		if len(ev) > 0 && ev[len(ev)-1] != "end connected=false" {
+			fs = append(fs, explore.Finding{Oracle: "still-connected", Msg: "Connected() is true after the disconnect: " + ev[len(ev)-1]})
+		}
+		return fs
+	}
+	return sc
+}
+
+// ---------------------------------------------------------------- reconnect
+
+type c07RecParams struct {
+	Cause    string // how each connection but the last ends: close | eof | cancel | writeerr
+	From     string // reconnect issued from: handler (inside DISCONNECTED) | task (woken by it)
+	Cycles   int    // total number of connections (2 or 3)
+	Tracking bool
+	Welcome  string // same | changed | none : the 001 confirms the nick, changes it, or is not sent
+	Backlog  int    // inbound lines pending when a connection is ended
+	ChanCap  int
+}
+
+func (p c07RecParams) name() string {
+	return fmt.Sprintf("reconnect/cause=%s/from=%s/cycles=%d/track=%v/welcome=%s/in=%d/cap=%d", p.Cause, p.From, p.Cycles, p.Tracking, p.Welcome, p.Backlog, p.ChanCap)
+}
+
+func c07ReconnectScenario(p c07RecParams) *explore.Scenario {
+	sc := &explore.Scenario{
+		Family: "reconnect",
+		Name:   p.name(),
+		Params: map[string]interface{}{"cause": p.Cause, "from": p.From, "cycles": p.Cycles, "tracking": p.Tracking, "welcome": p.Welcome, "inbound_backlog": p.Backlog, "chancap": p.ChanCap},
+		Opt:    vx.Options{ChanCap: p.ChanCap, MaxSteps: 60000},
+	}
+	sc.Main = func(env *vx.Env) {
+		c := NewClient("me", nil)
+		if p.Tracking {
+			c.EnableStateTracking()
+		}
+		var ctxs []context.CancelFunc
+		connects := vx.NewCounter("connects")
+		wake := vx.NewCounter("wake")
+		doConnect := func(who string) {
+			ctx, cancel := context.WithCancel(context.Background())
+			ctxs = append(ctxs, cancel)
+			err := c.ConnectContext(ctx)
+			vx.Observe("ev", fmt.Sprintf("connect-ret %s ok=%v", who, err == nil))
+			if err == nil {
+				connects.Add(1)
+			}
+		}
+		c.HandleFunc(client.DISCONNECTED, func(conn *client.Conn, line *client.Line) {
+			vx.Observe("ev", "DISCONNECTED")
+			if connects.Peek() >= p.Cycles {
+				return
+			}
+			if p.From == "handler" {
+				doConnect("handler")
+			} else {
+				wake.Add(1)
+			}
+		})
+		if p.From == "task" {
+			env.Go("reconnector", func() {
+				for i := 1; i < p.Cycles; i++ {
+					wake.WaitFor(i)
+					doConnect("task")
+				}
+			})
+		}
+		env.ConnSetup = func(x *vx.Conn) {
+			switch p.Welcome {
+			case "same":
+				x.Preload(":irc.example 001 me :Welcome me!ident@host.example\r\n")
+			case "changed":
+				x.Preload(fmt.Sprintf(":irc.example 001 me%d :Welcome me%d!ident@host.example\r\n", x.Idx, x.Idx))
+			}
+			if p.Tracking {
+				x.Preload(fmt.Sprintf(":me!ident@host.example JOIN #c%d\r\n", x.Idx))
+			}
+		}
+		doConnect("root")
+		for k := 1; k <= p.Cycles; k++ {
+			connects.WaitFor(k)
+			vx.Quiesce()
+			// the k-th connection has been up and idle for a while: it must still be there
+			me, cfgMe := c.Me(), c.Config().Me
+			vx.Observe("ev", fmt.Sprintf("check conn=%d up=%v me-nil=%v cfgme-nil=%v", k, c.Connected(), me == nil, cfgMe == nil))
+			if p.Tracking {
+				st := c.StateTracker()
+				others := 0
+				for j := 0; j < k-1; j++ {
+					if st.GetChannel(fmt.Sprintf("#c%d", j)) != nil {
+						others++
+					}
+				}
+				vx.Observe("ev", fmt.Sprintf("tracker conn=%d stale-channels=%d", k, others))
+			}
+			conns := env.Conns()
+			if len(conns) < k {
+				vx.Observe("ev", fmt.Sprintf("no-socket conn=%d", k))
+				break
+			}
+			vc := conns[k-1]
+			if p.Backlog > 0 {
+				vc.Send(Privmsgs(0, p.Backlog))
+			}
+			vx.Observe("ev", fmt.Sprintf("cause-begin conn=%d", k))
+			cause := p.Cause
+			if k == p.Cycles {
+				cause = "eof"
+			}
+			switch cause {
+			case "close":
+				c.Close()
+			case "eof":
+				vc.EOF()
+			case "cancel":
+				ctxs[k-1]()
+			case "writeerr":
+				vc.FailNextWrite()
+				vc.SendLines("PING :provoke-a-write")
+			}
+		}
+		vx.Quiesce()
+		vx.Observe("ev", fmt.Sprintf("end connected=%v sockets=%d", c.Connected(), len(env.Conns())))
+	}
+	sc.Check = func(o *vx.Outcome) []explore.Finding {
+		if fs := stdOutcome(o); fs != nil {
+			if o.Kind == "deadlock" {
+				fs[0].Msg = "reconnect scenario did not finish; " + fs[0].Msg + " :: " + strings.Join(o.Log("ev"), "; ")
+			}
+			return fs
+		}
+		var fs []explore.Finding
+		ev := o.Log("ev")
+		bad := func(id, msg string) {
+			fs = append(fs, explore.Finding{Oracle: id, Msg: msg + " :: " + strings.Join(ev, "; ")})
+		}
+		connects := count(ev, "connect-ret root ok=true") + count(ev, "connect-ret handler ok=true") + count(ev, "connect-ret task ok=true")
+		if connects != p.Cycles {
+			bad("reconnect-failed", fmt.Sprintf("%d of %d connects succeeded", connects, p.Cycles))
+		}
+		if n := count(ev, "DISCONNECTED"); n != connects {
+			bad("disconnected-count", fmt.Sprintf("%d DISCONNECTED events for %d established connections", n, connects))
+		}
+		for _, r := range ev {
+			if strings.HasPrefix(r, "check ") {
+				if strings.Contains(r, "up=false") {
+					bad("new-connection-killed", "a fresh connection went down although nothing ended it: "+r)
+				}
+				if strings.Contains(r, "me-nil=true") || strings.Contains(r, "cfgme-nil=true") {
+					bad("me-nil", "Me() / Config().Me is nil: "+r)
+				}
+			}
+			if strings.HasPrefix(r, "tracker ") && !strings.HasSuffix(r, "stale-channels=0") {
+				bad("tracker-not-reset", "the tracker still holds channels of a previous connection: "+r)
+			}
+		}
+		for i, vc := range o.Conns {
+			// REGISTER is dispatched by the caller of Connect concurrently with the event
+			// loop, so other lines may precede it; NICK then USER must be there.
+			ls := vc.Lines()
+			ni, ui := -1, -1
+			for j, l := range ls {
+				if ni < 0 && strings.HasPrefix(l, "NICK ") {
+					ni = j
+				}
+				if ui < 0 && strings.HasPrefix(l, "USER ") {
+					ui = j
+				}
+			}
+			if ni < 0 || ui < 0 || ui < ni {
+				bad("registration-missing", fmt.Sprintf("connection %d: NICK/USER not sent: %v", i+1, ls))
+			}
+		}
+		if len(ev) > 0 && !strings.HasPrefix(ev[len(ev)-1], "end connected=false") {
+			bad("still-connected", "Connected() true at the end")
+		}
+		if l := ClientLeaks(o); len(l) > 0 {
+			bad("leak", "client goroutines alive at the end: "+strings.Join(l, " | "))
 		}
 		return fs
 	}
@@ -93,22 +321,103 @@ func c07Scenario(p c07Params, chanCap int) *explore.Scenario {
 func init() {
 	Register(&Prop{
 		ID:   "C07",
-		Rule: "every execution of each teardown/reconnect scenario (inbound backlog x outbound backlog x cause x reconnect mode x queue capacity) within the deviation budgets; distinct = distinct canonical observation (event log + wire transcript + blocked tasks) per scenario; a scenario with a single outcome or never more than one enabled task is flagged vacuous",
+		Rule: "every execution within the deviation budgets of (a) teardown scenarios = inbound backlog {0,1,33,34,66,70,300} in one or many segments x handler state {idle, running, sending m in {1,33,65,70,300} lines with the server reading or stalled} x cause {Close, EOF, read error, write error, context cancel} x flood control x concurrent user sender, at the real queue capacity 32 and capacity-scaled to 2 (backlogs {0,1,3,4,6,7}); (b) reconnect scenarios = 2-3 connect/disconnect cycles, reconnect from the DISCONNECTED handler or from a task woken by it, tracking on/off, welcome confirming / changing the nick; distinct = distinct canonical observation per scenario",
 		Assumptions: []string{
-			"interleavings are explored at synchronisation/channel/socket/timer granularity (DESIGN.md 3.8)",
+			"interleavings at synchronisation/channel/socket/timer granularity (DESIGN.md 3.8)",
 			"capacity-scaled scenarios (chancap=2) are an abstraction of the 32-slot queues; unscaled ones are the real thing",
+			"'bounded time' is rendered as: the execution terminates (no deadlock, no step cap) within the virtual horizon",
 		},
-		Jobs: func(tier string) []Job {
-			var jobs []Job
-			for _, bl := range []int{0, 1, 33, 64, 65, 70} {
-				sc := c07Scenario(c07Params{Backlog: bl, Cause: "close"}, 0)
-				jobs = append(jobs, ExploreJob("C07", ExploreSpec{Sc: sc, Variants: []int{1, 2, 3}, Budgets: []explore.Budget{{0, 0}, {1, 0}}, Cache: true}, 10+bl))
-			}
-			for _, bl := range []int{0, 1, 3, 4, 5, 6} {
-				sc := c07Scenario(c07Params{Backlog: bl, Cause: "close"}, 2)
-				jobs = append(jobs, ExploreJob("C07", ExploreSpec{Sc: sc, Variants: []int{1, 2, 3}, Budgets: []explore.Budget{{0, 0}, {1, 0}, {2, 0}}, Cache: true, CrossChk: &explore.Budget{K: 1}}, 5+bl))
-			}
-			return jobs
-		},
+		Jobs: c07Jobs,
 	})
+}
+
+func c07Jobs(tier string) []Job {
+	var jobs []Job
+	thorough := tier == "thorough"
+	add := func(p c07Params, bs []explore.Budget, cost int) {
+		jobs = append(jobs, ExploreJob("C07", ExploreSpec{Sc: c07Scenario(p), Variants: []int{1, 2, 3}, Budgets: bs, Cache: true}, cost))
+	}
+	b1 := []explore.Budget{{0, 0}, {1, 0}}
+	b2 := []explore.Budget{{0, 0}, {1, 0}, {2, 0}}
+	b3 := []explore.Budget{{0, 0}, {1, 0}, {2, 0}, {3, 0}}
+	causes := []string{"close", "eof", "readerr", "writeerr", "cancel"}
+	// unscaled: inbound backlog
+	for _, bl := range []int{0, 1, 33, 34, 64, 65, 66, 70} {
+		for _, cs := range causes {
+			bs := b1
+			if thorough {
+				bs = b2
+			}
+			add(c07Params{Backlog: bl, Segs: "one", Mode: "gated", Cause: cs}, bs, 10+bl)
+		}
+		add(c07Params{Backlog: bl, Segs: "many", Mode: "gated", Cause: "close"}, b1, 10+bl)
+	}
+	if thorough {
+		for _, cs := range causes {
+			add(c07Params{Backlog: 300, Segs: "one", Mode: "gated", Cause: cs}, b1, 400)
+		}
+		add(c07Params{Backlog: 300, Segs: "many", Mode: "gated", Cause: "close"}, b1, 400)
+	}
+	// unscaled: outbound backlog from a handler, server reading / stalled
+	for _, em := range []int{1, 33, 65, 70} {
+		for _, cs := range causes {
+			for _, stall := range []bool{false, true} {
+				if !stall && cs != "close" && em != 70 {
+					continue
+				}
+				add(c07Params{Backlog: 1, Segs: "one", Mode: "sending", Emit: em, Stall: stall, Cause: cs}, b1, 10+em)
+			}
+		}
+	}
+	if thorough {
+		for _, cs := range causes {
+			add(c07Params{Backlog: 1, Segs: "one", Mode: "sending", Emit: 300, Stall: true, Cause: cs}, b1, 300)
+		}
+	}
+	// idle handler, user sender, flood control
+	for _, cs := range causes {
+		add(c07Params{Backlog: 0, Segs: "one", Mode: "idle", Cause: cs}, b2, 5)
+		add(c07Params{Backlog: 1, Segs: "one", Mode: "idle", Cause: cs, UserSend: 40, Stall: true}, b1, 40)
+		add(c07Params{Backlog: 1, Segs: "one", Mode: "sending", Emit: 8, Cause: cs, FloodCtl: true}, b1, 20)
+		add(c07Params{Backlog: 1, Segs: "one", Mode: "idle", Cause: cs, UserSend: 8, FloodCtl: true}, b1, 20)
+	}
+	// capacity-scaled abstraction: two levels deeper
+	for _, bl := range []int{0, 1, 3, 4, 5, 6, 7} {
+		for _, cs := range causes {
+			bs := b2
+			if thorough {
+				bs = b3
+			}
+			add(c07Params{Backlog: bl, Segs: "one", Mode: "gated", Cause: cs, ChanCap: 2}, bs, 5+bl)
+		}
+	}
+	for _, em := range []int{1, 3, 5, 7} {
+		for _, cs := range causes {
+			bs := b2
+			if thorough {
+				bs = b3
+			}
+			add(c07Params{Backlog: 1, Segs: "one", Mode: "sending", Emit: em, Stall: true, Cause: cs, ChanCap: 2}, bs, 5+em)
+		}
+	}
+	// reconnect
+	for _, from := range []string{"handler", "task"} {
+		for _, cs := range []string{"close", "eof", "cancel", "writeerr"} {
+			for _, tr := range []bool{false, true} {
+				for _, w := range []string{"same", "changed"} {
+					if !tr && w == "changed" {
+						continue
+					}
+					bs := b2
+					if thorough {
+						bs = b3
+					}
+					jobs = append(jobs, ExploreJob("C07", ExploreSpec{Sc: c07ReconnectScenario(c07RecParams{Cause: cs, From: from, Cycles: 2, Tracking: tr, Welcome: w, Backlog: 1}), Variants: []int{1, 2, 3}, Budgets: bs, Cache: true}, 30))
+				}
+			}
+		}
+		jobs = append(jobs, ExploreJob("C07", ExploreSpec{Sc: c07ReconnectScenario(c07RecParams{Cause: "close", From: from, Cycles: 3, Welcome: "same", Backlog: 0}), Variants: []int{1, 2, 3}, Budgets: b2, Cache: true}, 40))
+		jobs = append(jobs, ExploreJob("C07", ExploreSpec{Sc: c07ReconnectScenario(c07RecParams{Cause: "eof", From: from, Cycles: 3, Tracking: true, Welcome: "changed", Backlog: 3, ChanCap: 2}), Variants: []int{1, 2, 3}, Budgets: b2, Cache: true}, 40))
+	}
+	return jobs
 }
